@@ -568,6 +568,12 @@ class IH5Group(IH5InnerNode):
         if nodes[-1]._gpath == path:
             raise ValueError("Cannot create group, it already exists!")
 
+        # if intermediate groups are missing, first create the topmost missing one as
+        # a proper (non-virtual) group, replacing a possibly present deletion marker
+        rel_segs = nodes[-1]._rel_path(path).strip("/").split("/")
+        if len(rel_segs) > 1:
+            self.create_group(f"{nodes[-1]._gpath.rstrip('/')}/{rel_segs[0]}")
+
         # remove "deleted" marker, if set at current path in current patch container
         if path in self._files[-1] and _node_is_del_mark(self._files[-1][path]):
             del self._files[-1][path]
